@@ -20,6 +20,16 @@ def validFor (x : Consumer) (e : Evidence) : Bool :=
 /-- accepted ⇒ valid -/
 def acceptedOnlyIfValid (x : Consumer) (e : Evidence) (ok : Bool) : Bool := !ok || validFor x e
 
+/-- valid, well-formed evidence against a validator that exists, is not unbonded and not tombstoned
+    IS punished (bonded or still unbonding, jailed or not), provided the consumer has double-sign
+    settings and the submitted header's validator set contains the signer -/
+def validIsPunished (x : Consumer) (stk : List SVal) (e : Evidence) (ok : Bool) : Bool :=
+  ok || !(validFor x e && basicOK e && (match e.hv with | some hv => hv.contains e.a.addr | none => false) &&
+          (x.infr.bind (·.ds)).isSome &&
+          (match stk.find? (·.id == providerOf x e.a.addr) with
+           | some r => r.status != 1 && !r.tomb
+           | none => false))
+
 /-- every call made to staking / slashing names the one validator that owns the signing key on
     this consumer -/
 def onlySigner (x : Consumer) (e : Evidence) (effs : List Effect) : Bool :=
